@@ -93,6 +93,12 @@ struct default_color_converter_impl< rgb_t, hsl_t >
 
          }
 
+         // diff / sum and diff / ( 2.f - sum ) can exceed 1 by float rounding
+         if( saturation > 1.f )
+         {
+            saturation = 1.f;
+         }
+
          // hue calculation
          if( std::abs( max_color - temp_red ) < 0.0001f )
          {
